@@ -106,6 +106,9 @@ Fixpoint scan_long (fuel : nat) (q : N) (raw : bool) (s : str) (n : nat) : optio
             | Some k => scan_long fuel' q raw (skipn k (tl s)) (S (k + n))
             | None => None
             end
+          else if raw && ((a =? 0) || (a =? 1114111))%N then None
+               (* the runtime's wildcard '.' (raw triple-quoted forms only) does not match
+                  U+0000 or U+10FFFF: known finding K01 *)
           else scan_long fuel' q raw (tl s) (S n)
       | _ => None
       end
